@@ -49,7 +49,7 @@ OPS = tuple(p + o for p in ("sm_", "smr_") for o in BASE_OPS)
 LEAN = ["Ymq.Props.C14Small"]
 AUDIT = "Ymq.Audit.C14Small"
 # >>>>>>>>>> PLACEHOLDER: space separated names of the theorems of namespace Ymq.C14Small (to be filled in) <<<<<<<<<<
-THEOREM_NAMES = ("rank_spec rank_profile_independent pseudoinverse_spec pseudoinverse_no_panic pseudoinverse_sound submatrix_spec pipeline_spec rank_reverse_spec inverse_spec inverse_some_iff inverse_profile_independent transpose_spec mask_spec reverse_spec symmetric_spec identity_spec genblock_never_ends genblock_accepts mul_aab_opt_spec gram_rank_le_cube genblock_never_ends_hang_rule genblock_never_ends_low_rank genblock_never_ends_witness lanczos_step_no_panic_release lanczos_step_checked_orthogonal rank_not_greedy pseudoinverse_unmasked_counterwitness pipeline_nonsymmetric_counterwitness")
+THEOREM_NAMES = ("rank_spec rank_profile_independent pseudoinverse_spec pseudoinverse_no_panic pseudoinverse_sound submatrix_spec pipeline_spec rank_reverse_spec inverse_spec inverse_some_iff inverse_profile_independent transpose_spec mask_spec reverse_spec symmetric_spec identity_spec genblock_never_ends genblock_accepts mul_aab_opt_spec gram_rank_le_cube genblock_never_ends_hang_rule genblock_never_ends_low_rank genblock_never_ends_witness lanczos_init_well_formed lanczos_step_no_panic_release lanczos_step_checked_orthogonal rank_not_greedy pseudoinverse_unmasked_counterwitness pipeline_nonsymmetric_counterwitness")
 THEOREMS = ["Ymq.C14Small." + t for t in THEOREM_NAMES.split()]
 
 N = 64
